@@ -321,6 +321,38 @@ parse_next_record_header:
         }
     }
 
+    if (MATRIX_IS_SERVER(ssl) &&
+            !DECRYPTING_RECORDS(ssl) &&
+            ssl->rec.type == SSL_RECORD_TYPE_APPLICATION_DATA &&
+            ssl->hsState == SSL_HS_TLS_1_3_START &&
+            ssl->tls13IncorrectDheKeyShare &&
+            ssl->extFlags.got_early_data == 1)
+    {
+        /* RFC 8446, 4.2.10: a server that answered a ClientHello carrying
+           early_data with a HelloRetryRequest skips the early data the
+           client had already sent (records of type application_data),
+           up to the amount of early data it is configured to accept. */
+        ssl->tls13EarlyDataStatus = MATRIXSSL_EARLY_DATA_REJECTED;
+        if (ssl->rec.len <= ssl->tls13SessionMaxEarlyData &&
+                ssl->tls13ReceivedEarlyDataLen <=
+                ssl->tls13SessionMaxEarlyData - ssl->rec.len)
+        {
+            ssl->tls13ReceivedEarlyDataLen += ssl->rec.len;
+            *in = pb.buf.start + ssl->rec.len;
+            *remaining = pb.buf.end - (pb.buf.start + ssl->rec.len);
+            *len = 0;
+            *alertDescription = SSL_ALERT_NONE;
+            if (*remaining == 0 && ssl->outlen > 0)
+            {
+                return SSL_SEND_RESPONSE;
+            }
+            return MATRIXSSL_SUCCESS;
+        }
+        psTraceErrr("Too much early data to skip after HelloRetryRequest\n");
+        ssl->err = SSL_ALERT_UNEXPECTED_MESSAGE;
+        goto encodeResponse;
+    }
+
     recordWasDecrypted = DECRYPTING_RECORDS(ssl) ? PS_TRUE : PS_FALSE;
     if (recordWasDecrypted)
     {
